@@ -49,7 +49,8 @@ MODELLED = ["where siqs() and mpqs() poll the abort predicate inside a work unit
             "(Ymq/Model/Sched.lean): abort_bounded = after the predicate answers true each worker performs at most the rest of its "
             "current work unit, for every interleaving", "the abort poll of factor_impl (lib.rs:431) and the aborted-sieve path (empty divisor list => n pushed unsplit) in "
             "Ymq/Model/Factor.lean; the abort predicate is an arbitrary stateful oracle, so every flip instant is covered by the theorem"]
-UNMODELLED = ["poll points inside the sieves / ECM (siqs.rs, mpqs.rs, qsieve.rs, ecm.rs) appear in the model only through their result "
+UNMODELLED = ["Pollard P-1 has no poll point (recorded finding no-abort-poll-inside-pm1): measured as blind time (harness field blind_ms)",
+              "poll points inside the sieves / ECM (siqs.rs, mpqs.rs, qsieve.rs, ecm.rs) appear in the model only through their result "
               "(empty divisor list / None); wall-clock latency is a runtime behaviour and is measured, not proved",
               "P-1, rho and ECM128 have no poll point: their whole stage is one work unit"]
 HYPOTHESES = ['OracleOK', 'SelectorPre']
@@ -130,6 +131,9 @@ def cases(tier, rng, extended=False):
 
 
 LONG_LAT_BOUND_MS = 5000
+# time a pending request may stay unseen (no call of the predicate): a stage without poll point is one work unit
+BLIND_BOUND_MS = 5000
+BLIND_KEY = "no-abort-poll-inside-pm1"
 
 
 def long_cases(tier, rng):
@@ -222,6 +226,37 @@ def oracle(case, ans):
         pass
     if md.get("late", 0) > 0 and md.get("lat_ms", 0) > bound:
         return f"returned {md['lat_ms']} ms after the abort predicate first answered true (bound {bound} ms)"
+    bb = _blind_bound()
+    if md.get("blind_ms", 0) > bb:
+        return (f"the abort request stayed unseen for {md['blind_ms']} ms (bound {bb} ms): no poll point inside the stage that was "
+                f"running ({md.get('after_flip', '?')})")
+    return None
+
+
+def corpus_case(line):
+    return Case(line, k=False, tag="corpus", profiles=["release"], timeout=300)
+
+
+def _blind_bound():
+    b = BLIND_BOUND_MS
+    try:
+        import os
+        b = int(b * max(1.0, os.getloadavg()[0] / 12.0))
+    except OSError:
+        pass
+    return b
+
+
+def finding_key(case, ans, profile):
+    """the recorded finding is exactly: the request stayed unseen while Pollard P-1 (pm1_quick of Auto, or selector Pm1) ran"""
+    if case.op != "factor":
+        return None
+    kind, fs, trace, md = fc.parse_answer(ans)
+    if kind in ("ok", "failure") and md.get("blind_ms", 0) > _blind_bound() and md.get("after_flip") in ("pm1q", "pm1") \
+            and md.get("foreign", 0) == 0 and (kind == "failure" or fc.prod(fs) == int(case.args[0])):
+        if md.get("late", 0) > 0 and md.get("lat_ms", 0) > LAT_BOUND_MS:
+            return None
+        return BLIND_KEY
     return None
 
 
